@@ -1407,6 +1407,7 @@ func (c *ChannelStateDB) putChanStatus(channel *OpenChannel,
 func (c *ChannelStateDB) ClearChannelStatus(channel *OpenChannel,
 	status ChannelStatus) error {
 
+	var newStatus ChannelStatus
 	if err := kvdb.Update(c.backend, func(tx kvdb.RwTx) error {
 		chanBucket, err := fetchChanBucketRw(
 			tx, channel.IdentityPub, &channel.FundingOutpoint,
@@ -1423,17 +1424,21 @@ func (c *ChannelStateDB) ClearChannelStatus(channel *OpenChannel,
 			return err
 		}
 
-		// Unset this bit in the bitvector on disk.
-		status = diskChannel.ChannelStatusForStore() & ^status
-		diskChannel.SetChannelStatusForStore(status)
+		// Unset this bit in the bitvector on disk. The result is kept
+		// in its own variable: the closure may be run again by the
+		// backend and must then start from the caller's status.
+		newStatus = diskChannel.ChannelStatusForStore() & ^status
+		diskChannel.SetChannelStatusForStore(newStatus)
 
 		return putOpenChannel(chanBucket, diskChannel)
-	}, func() {}); err != nil {
+	}, func() {
+		newStatus = 0
+	}); err != nil {
 		return err
 	}
 
 	// Update the in-memory representation to keep it in sync with the DB.
-	channel.SetChannelStatusForStore(status)
+	channel.SetChannelStatusForStore(newStatus)
 
 	return nil
 }
